@@ -14,7 +14,7 @@ import copy
 from vf import gen_sched
 
 PATHS = ["completion", "limit", "recur-raise", "enter-raise", "extend-enter-raise", "remove",
-         "kbint-in-doer", "kbint-sched"]
+         "kbint-in-doer", "kbint-sched", "hook-acts", "extend-idle-always"]
 
 
 def _schedulers(prog):
@@ -91,6 +91,10 @@ def make_case(rng, path, *, nmax=8, depth=3, mixed_tocks=True):
             caller.setdefault("acts", {}).setdefault(str(k), []).append(["remove", sid, ids_, False])
         if prog["limit"] is None and gen_sched.needs_limit(prog["doers"]):
             prog["limit"] = prog["tock"] * 12
+    if path == "hook-acts":
+        return make_hook_acts(rng)
+    if path == "extend-idle-always":
+        return make_extend_idle_always(rng)
     if prog["limit"] is None and path in ("kbint-sched",) and gen_sched.needs_limit(prog["doers"]):
         prog["limit"] = prog["tock"] * 10
     return case
@@ -124,3 +128,85 @@ def place_fault(prog, site, exc="ValueError"):
             else:
                 lf["end"] = [k, "raise", exc]
     return p
+
+
+def make_hook_acts(rng):
+    """Doers whose own cease/exit hook calls remove()/extend() on their scheduler (e.g. a doer that attached a
+    helper detaches it when it exits); the run is stopped by limit, an exception, or completes."""
+    stop = rng.choice(["limit", "recur-raise", "completion", "limit"])
+    case = make_case(rng, stop)
+    prog = case["prog"]
+    leaves = _running_leaves(prog)
+    ids = gen_sched.Ids()
+    ids.n = 400
+    pool = []
+    for _ in range(rng.randint(1, 3)):
+        if not leaves:
+            break
+        owner = rng.choice(leaves)
+        # only the owner's own ancestor schedulers are certainly still running (or still sweeping their deeds)
+        # while the owner's cease/exit hook runs; forced exits go in reverse enter order, so any other DoDoer may
+        # already have exited, and extending an exited scheduler is a misuse nothing covers
+        scheds = ["doist"] + [g["id"] for g in gen_sched.groups_of(prog["doers"]) if _contains(g, owner["id"])]
+        sid = rng.choice(scheds)
+        members = prog["doers"] if sid == "doist" else \
+            next(g for g in gen_sched.groups_of(prog["doers"]) if g["id"] == sid)["doers"]
+        hook = rng.choice(["exit", "exit", "cease"])
+        if rng.random() < 0.6:
+            cand = [m["id"] for m in members if not _contains(m, owner["id"])]
+            if not cand:
+                continue
+            targets = rng.sample(cand, rng.randint(1, min(2, len(cand))))
+            owner.setdefault("acts", {}).setdefault(hook, []).append(["remove", sid, targets, False])
+        else:
+            new = gen_sched.gen_leaf(rng, ids, prog["tock"], forever_p=0.6, enter_finish_p=0.0)
+            pool.append(new)
+            owner.setdefault("acts", {}).setdefault(hook, []).append(["extend", sid, [new["id"]], False])
+    prog["pool"] = prog.get("pool", []) + pool
+    if prog["limit"] is None and gen_sched.needs_limit(prog["doers"] + pool):
+        prog["limit"] = prog["tock"] * 8
+    case["path"] = "hook-acts"
+    return case
+
+
+def make_extend_idle_always(rng):
+    """A DoDoer(always=True) whose own children have all finished is extended by a doer OUTSIDE it (a later
+    sibling), and the run stops (exception in that same cycle, or limit) before the DoDoer recurs again."""
+    ids = gen_sched.Ids()
+    tock = rng.choice([0.25, 0.5, 1.0])
+    kids = [gen_sched.gen_leaf(rng, ids, tock, forever_p=0.0, enter_finish_p=0.2, max_steps=2)
+            for _ in range(rng.randint(1, 3))]
+    for kd in kids:
+        kd["ys"] = [0.0]
+    group = {"id": ids.group(), "kind": "dodoer", "tock": rng.choice([0.0, 0.0, tock * 2]), "always": True,
+             "doers": kids}
+    before = [gen_sched.gen_leaf(rng, ids, tock, forever_p=0.5) for _ in range(rng.randint(0, 2))]
+    caller = gen_sched.gen_leaf(rng, ids, tock, forever_p=1.0, enter_finish_p=0.0)
+    caller["kind"] = rng.choice(["doer", "redoer", "doify"])
+    caller["ys"] = [0.0]
+    after = [gen_sched.gen_leaf(rng, ids, tock, forever_p=0.5) for _ in range(rng.randint(0, 2))]
+    news = [gen_sched.gen_leaf(rng, ids, tock, forever_p=0.7, enter_finish_p=0.0) for _ in range(rng.randint(1, 2))]
+    k = rng.randint(3, 6)
+    caller["acts"] = {str(k): [["extend", group["id"], [n["id"] for n in news], False]]}
+    stop = rng.choice(["raise-same-step", "raise-later-doer", "limit-same-cycle", "limit-later", "kbint-same-step"])
+    limit = None
+    if stop == "raise-same-step":
+        caller["end"] = [k, "raise", "ValueError"]
+    elif stop == "kbint-same-step":
+        caller["end"] = [k, "raise", "KeyboardInterrupt"]
+    elif stop == "raise-later-doer":
+        bomb = gen_sched.gen_leaf(rng, ids, tock, forever_p=1.0, enter_finish_p=0.0)
+        bomb["kind"], bomb["ys"], bomb["end"] = "doify", [0.0], [k, "raise", "ValueError"]
+        after.append(bomb)
+    elif stop == "limit-same-cycle":
+        limit = tock * k
+    else:
+        limit = tock * (k + rng.randint(1, 3))
+    nested = rng.random() < 0.3
+    top = before + [group, caller] + after
+    if nested:
+        outer = {"id": ids.group(), "kind": "dodoer", "tock": 0.0, "always": False, "doers": [group]}
+        top = before + [outer, caller] + after
+    prog = {"tock": tock, "tyme": 0.0, "limit": limit if limit else tock * (k + 4), "runner": "do", "doers": top,
+            "pool": news, "dyadic": True}
+    return {"prog": prog, "path": "extend-idle-always", "fault": {"stop": stop, "step": k, "group": group["id"]}}
